@@ -1,4 +1,5 @@
 import MQ.Inv.RingMain
+import MQ.Inv.WakeMain
 /-!
 # C08 — a blocked receiver always wakes when a value or the end is available
 Decided as the safety facts that make it true under any fair scheduler.
@@ -56,5 +57,37 @@ theorem C08_yield_loop_has_check (σ : St) (t j seq a b : Nat) (hw : σ.wait = .
   split
   · left; simp [St.goto, St.setTh, upd]
   · right; simp [St.goto, St.setTh, upd]
+
+/-- C08 (no lost wake-up on the condvar — for every execution in which the condvar's mutex is mutual exclusion):
+in every reachable state of a `BlockingWait` queue, if a consumer is waiting on the condvar (or has decided to,
+under the lock) for slot `j` / sequence number `seq` and its wake-up condition `check(seq, tag[j], writers)` holds
+*now*, then some thread is a pending notifier: it has published a slot or taken the writer count down and has
+not yet executed `notify_all` (`od`, `nb1`, `nb2`, or the sender-drop path). Since a pending notifier only stops
+being one by executing `notify_all`, which releases every waiter, no waiter can be left behind. -/
+theorem C08_no_lost_wakeup_partial (N : Nat) (bcast : Bool) (wait : WaitK) (fut : Bool)
+    (ls : List Label) (σ : St) (r : WRun (init N bcast wait fut) ls σ) (a b : Nat) (hw : σ.wait = .blocking a b)
+    (t j seq : Nat)
+    (hs : (σ.th t).pc = .wcvw j seq ∨ ((σ.th t).pc = .wblk j seq ∧ t ∈ σ.cvWaiters))
+    (hc : checkVal seq (σ.tag j) σ.writers = true) : ∃ u, (σ.th u).pc.pendB = true :=
+  (winv_wrun r (winv_init N bcast wait fut)).w1 a b hw t j seq hs hc
+
+/-- C08 (a pending notifier stays one until it notifies): its next own step is again a pending-notifier step,
+unless it is the `notify_all` itself. -/
+theorem C08_pending_notifier_persists (σ : St) (x inp a b : Nat) (hw : σ.wait = .blocking a b)
+    (hp : (σ.th x).pc.pendB = true) (hn : ∀ k, (σ.th x).pc ≠ .nb2 k) :
+    ((stepRun σ x inp).2.th x).pc.pendB = true :=
+  pendB_step σ x inp a b hw hp hn
+
+/-- C08 (`notify_all` releases everybody): after the notifier's step no thread is in the waiter set. -/
+theorem C08_notify_all_releases (σ : St) (x inp k : Nat) (hpc : (σ.th x).pc = .nb2 k) :
+    (stepRun σ x inp).2.cvWaiters = [] := by
+  simp only [stepRun, hpc]
+  exact congrArg WData.cvWaiters (afterNotify_wdata _ x k)
+
+/-- the mutex of the condvar is held exactly inside its critical sections -/
+theorem C08_condvar_mutex_partial (N : Nat) (bcast : Bool) (wait : WaitK) (fut : Bool)
+    (ls : List Label) (σ : St) (r : WRun (init N bcast wait fut) ls σ) (t : Nat) :
+    (σ.th t).pc.wHeld = true ↔ σ.wlockOwner = some t :=
+  (winv_wrun r (winv_init N bcast wait fut)).own t
 
 end MQ
